@@ -1064,6 +1064,37 @@ int main(int argc, char **argv) {
         };
         plan.stages.push_back(st);
         {
+            // loop heads whose attributes start more than 255 units behind '<loop' (the tag record keeps their offsets)
+            vx::Stage s3;
+            s3.name   = "long-loop-heads";
+            s3.chunks = 1;
+            s3.fn     = [](int64_t, vx::Ctx &ctx) {
+                Value<char>       v = build_value<char>(specs[0]);
+                const std::string pad(250, ' ');
+                struct {
+                    std::string tpl, want;
+                } cs[] = {{"<loop set=\"nums\"" + pad + " value=\"v\">{var:v},</loop>", "3,1,2,"},
+                          {"<loop" + pad + " set=\"nums\" value=\"v\" sort=\"ascend\">{var:v},</loop>", "1,2,3,"},
+                          {"<loop set=\"g\"" + pad + " value=\"v\" group=\"y\">{var:v};</loop>", "1;2;"},
+                          {"<loop set=\"g\" value=\"v\"" + pad + " group=\"y\">{var:v};</loop>", "1;2;"}};
+                for (auto &c : cs) {
+                    if (!ctx.next()) {
+                        continue;
+                    }
+                    if (ctx.want_desc()) {
+                        ctx.describe("long loop head (" + std::to_string(c.tpl.size()) + " units) " + c.tpl.substr(0, 20) + "..." + c.tpl.substr(c.tpl.size() - 50));
+                    }
+                    ctx.acc.count("states");
+                    ctx.acc.count("evals");
+                    std::string got = render<char>(c.tpl, v);
+                    if (got != c.want) {
+                        ctx.fail("long loop head " + c.tpl.substr(0, 20) + "...(250 blanks)..." + c.tpl.substr(c.tpl.size() - 50), "rendered '" + got.substr(0, 120) + "', the documented expansion is '" + c.want + "'");
+                    }
+                }
+            };
+            plan.stages.push_back(s3);
+        }
+        {
             vx::Stage s2;
             s2.name   = "inline-if-attribute-order";
             s2.chunks = 1;
